@@ -9,6 +9,19 @@ func init() {
 	register("types:C04", func(a Args, w *ev.Writer) error { return c03.WriteTypes(a.In) })
 	register("replay:C04", func(a Args, w *ev.Writer) error { return c03.ReplayPrims(a.In, w) })
 	register("drive:C04", func(a Args, w *ev.Writer) error {
+		for _, r := range a.Rest { // schema=<schema.json>: enables the shape check of dumped values against the transcription
+			if len(r) > 7 && r[:7] == "schema=" {
+				if err := c03.LoadSchema(r[7:]); err != nil {
+					return err
+				}
+			}
+			if r == "summary" { // a side file <out>.sum with one short line per event
+				if err := c03.OpenSummary(a.Out + ".sum"); err != nil {
+					return err
+				}
+				defer c03.CloseSummary()
+			}
+		}
 		c03.DriveC04(w, c03.Opts{Tier: a.Tier, Seed: a.Seed, Shard: a.Shard, Shards: a.Shards})
 		return nil
 	})
